@@ -19,6 +19,8 @@ type Stats struct {
 	Known        map[string]int64 `json:"known"`
 	Runs         int64            `json:"runs"`
 	Exhaustive   bool             `json:"exhaustive"`
+	// Report lets an enumerating engine hand over several violations of one run; it returns true to stop.
+	Report func(t *Trace, v *Violation) bool `json:"-"`
 }
 
 func NewStats() *Stats {
